@@ -46,9 +46,11 @@ class _Uuid:
 def own_uuids():
     import twosigma.memento.storage_filesystem as sf
 
-    if not hasattr(sf, "uuid4"):
-        raise HarnessError("storage_filesystem no longer draws uuids through uuid4")
-    sf.uuid4 = _Uuid
+    import random
+
+    random.seed(12345)  # whatever the library draws from the process PRNG is reproducible per run
+    if hasattr(sf, "uuid4"):
+        sf.uuid4 = _Uuid
     _Uuid.n = 0
 
 
@@ -223,7 +225,11 @@ class StoreRun:
         be, m = self.be, self.model
         kind = op[0]
         if kind == "memo":
-            _, ki, cls, override = op
+            _, ki, cls, override = op[:4]
+            if len(op) > 4:
+                import random
+
+                random.seed(7)
             sym, arg = self.keys[ki]
             self.tick += 1
             val = value_of(cls, self.tick, self.budget)
@@ -281,6 +287,16 @@ class StoreRun:
             got = be.get_memento(storeh.rah(sym, arg))
             d = self.check_memento(got, ki)
             return ("lookup", "get_memento(%s/%s): %s" % (sym, arg, d)) if d else None
+        if kind == "getms":  # batch lookup: one answer per position
+            kis = op[1]
+            got = be.get_mementos([storeh.rah(*self.keys[k]) for k in kis])
+            if len(got) != len(kis):
+                return ("lookup", "get_mementos(%s) returned %d answers" % (kis, len(got)))
+            for k, g in zip(kis, got):
+                d = self.check_memento(g, k)
+                if d:
+                    return ("lookup", "get_mementos(%s), position of %s/%s: %s" % (list(kis), *self.keys[k], d))
+            return None
         if kind == "read":
             ki = op[1]
             if not m.live(ki):
@@ -589,7 +605,7 @@ def scratch_store(tag="st"):
 
 def alphabet(profile, keys, classes, small=False):
     ops = []
-    k2 = 2 % len(keys)
+    k2 = min(2, len(keys) - 1)  # a second call (of another function where there is one)
     for ki in range(len(keys)):
         for c in classes:
             ops.append(("memo", ki, c, None))
@@ -606,11 +622,20 @@ def alphabet(profile, keys, classes, small=False):
             ops.append(("memo", 0, "P", "k1"))
             ops.append(("memo_fault", 0, "D"))
             ops.append(("memo_fault", k2, "s"))
+            # the same two override writes by calls whose bodies seed the process-wide PRNG before returning
+            ops.append(("memo", 0, "s", "k1", "seeded"))
+            ops.append(("memo", k2, "t", "k1", "seeded"))
         ops.append(("wmeta", 0, "log", False))
         ops.append(("wmeta", 0, "log", True))
         ops.append(("wmeta", k2, "log", False))
         ops.append(("rmeta", 0, "log"))
         ops.append(("isall", (0, k2)))
+    if len(keys) >= 2:
+        a, b = 0, 1 % len(keys)
+        ops.append(("getms", (a, b)))
+        ops.append(("getms", (b, a)))
+        if len(keys) >= 3:
+            ops.append(("getms", (2, 0, 1)))
     for sym in sorted({s for s, _ in keys}):
         ops.append(("ff", sym))
         if not profile.startswith("c07"):
